@@ -33,6 +33,14 @@ def user_punch(rng, n):
     s = [f"USER_PUNCH {n}"]
     if heads:
         s.append(" -headings " + " ".join(h.replace(" ", "_") for h in heads))
+    if rng.random() < 0.2:
+        # a long punched string: the formatting buffers of fpunchf grow at 2048 / 4096 bytes
+        L = rng.choice([100, 2035, 2036, 2047, 2048, 2049, 4083, 4084, 4095, 4096, 4097, 5000, 9000])
+        s.append(' 1 a$ = ""')
+        s.append(f" 2 FOR i = 1 TO {L}")
+        s.append(' 3 a$ = a$ + "y"')
+        s.append(" 4 NEXT i")
+        vals.insert(rng.randint(0, len(vals)), "a$")
     if vals:
         s.append(" 10 PUNCH " + ", ".join(vals))
     else:
@@ -95,7 +103,12 @@ def selout_input(rng):
     return "".join(t), users
 
 
-def stream_input(rng, allow_error=True):
+def long_punch(n, L):
+    return (f"SELECTED_OUTPUT {n}\n -reset false\n -pH true\nUSER_PUNCH {n}\n -headings long tail\n"
+            f' 1 a$ = ""\n 2 FOR i = 1 TO {L}\n 3 a$ = a$ + "y"\n 4 NEXT i\n 10 PUNCH a$, 1\n')
+
+
+def stream_input(rng, allow_error=True, force_long=None):
     """input exercising every output stream: output, log (KNOBS -logfile), warnings, errors, DUMP, selected output"""
     t = []
     users = []
@@ -110,6 +123,10 @@ def stream_input(rng, allow_error=True):
         t.append(selected_output(rng, u))
         if rng.random() < 0.5:
             t.append(user_punch(rng, u))
+    if force_long:
+        u = rng.choice([3, 4])
+        users.append(u)
+        t.append(long_punch(u, force_long))
     if rng.random() < 0.4:
         # warning: negative concentration / unknown option warnings
         t.append("SOLUTION 3\n pH 7 charge\n Na 1\n Cl 1.1\n -water 1\n")
